@@ -71,7 +71,31 @@ def parts(tier):
     q = tier == "quick"
     return [Part("events", strategy=evrun.event_case("events", terminal_mode="none"), examples=700 if q else 15000, timeout=300),
             Part("near_boundary", strategy=_near_boundary(), examples=400 if q else 8000, timeout=300),
-            Part("tiny_steps", strategy=_tiny_steps(), examples=200 if q else 4000, timeout=300)]
+            Part("tiny_steps", strategy=_tiny_steps(), examples=200 if q else 4000, timeout=300),
+            Part("short_steps_deriv", strategy=_short_steps_deriv(), examples=200 if q else 4000, timeout=300)]
+
+
+@st.composite
+def _short_steps_deriv(draw):
+    """derivative-dependent events on steps of 1e-4: the change of g over a direction probe (3e-8 of the step) is ~1e-12, the
+    size of the rounding noise of a carelessly summed Hermite derivative (eps |y| / h)"""
+    method = draw(st.sampled_from(["RK4Solver", "RK5Solver", "MidpointSolver", "RK45CKSolver"]))
+    t0 = draw(st.sampled_from([0.0, 100.0, -7.0]))
+    h = 2.0 ** -13
+    N = draw(st.integers(16, 40))
+    sgn = draw(st.sampled_from([1.0, 1.0, -1.0]))
+    tf = t0 + sgn * N * h
+    prob = draw(EV.exact_problem(kinds=("decay", "rot")))
+    P = EV.ExactProblem(prob, t0)
+    evs = []
+    for _ in range(draw(st.integers(1, 2))):
+        frac = draw(st.sampled_from([0.31, 0.52, 0.77, 0.9]))
+        tc = t0 + frac * (tf - t0)
+        p = dict(h="deriv", s=draw(st.sampled_from([1.0, -1.0, 10.0])), direction=draw(st.sampled_from([1, -1, 0])), terminal=False, i=draw(st.integers(0, P.n - 1)))
+        p["c"] = EV.Event(dict(p, c=0.0)).h(tc, P.exact(tc), P.dexact(tc))
+        evs.append(p)
+    return dict(part="short_steps_deriv", method=method, dtype="float64", prob=prob, t0=t0, tf=tf, dt=h, rtol=1e-5, atol=1e-5,
+                dense=draw(st.booleans()), events=evs)
 
 
 def _tiny_steps():
